@@ -13,16 +13,26 @@ Release, PdiffIndex, Packages, Removals) - is built by assignment (neighbour val
 C02 domain: valid by construction).  Then the value is assigned to the field by one of the routes
 ``d[key] = value``, ``d.update({key: value})``, ``d.update(Deb822Dict({key: value}))``,
 ``d.update(Deb822Dict([(key, value)]))``, ``d.update([(key, value)])``, ``d.update(key=value)`` (names
-that are identifiers) or ``d.setdefault(key, value)`` (new keys) - all of them assign a value to a
+that are identifiers), ``d.setdefault(key, value)`` (new keys) or ``d.merge_fields(key, other)`` with
+``other`` a dict or a Deb822Dict holding the value under that key - all of them assign a value to a
 field and must accept/reject alike - and the outcome is judged:
 
-* rejected  -> must be ValueError, the independent rule below must say "reject", and
-               ``list(d.items())`` must be what it was;
-* accepted  -> the rule must say "accept"; ``d.dump()`` re-read through ``Deb822.iter_paragraphs``
-               in six input forms with ``strict={'whitespace-separates-paragraphs': False}`` -
-               and with the default setting when no continuation line is whitespace-only - must give
-               exactly one paragraph whose field names are exactly the paragraph's names, in order.
-               Values are not compared (that is C02).
+* rejected  -> must be ValueError (any other exception is a violation), the independent rule below
+               must say "reject", and ``list(d.items())`` must be what it was;
+* accepted  -> the rule must say "accept"; ``d.dump()`` re-read in six input forms (str, bytes,
+               text file, binary file, list of lines with and without line ends) with
+               ``strict={'whitespace-separates-paragraphs': False}`` - and with the default setting
+               when no continuation line is whitespace-only - by ``Deb822.iter_paragraphs``, by the
+               constructor of the paragraph's own class and by that class's ``iter_paragraphs``
+               must give exactly one paragraph whose field names are exactly the paragraph's names,
+               in order.  Values are not compared (that is C02).
+
+``merge_fields(key, other)`` for a field the paragraph lacks, or has with an empty value, assigns
+the other mapping's value (judged as above).  For a field with a non-empty value the two values are
+combined by the library; how is not part of this property, so the value the paragraph holds
+afterwards is read back from the paragraph and *that* is the value judged (rule says "accept",
+dump re-reads as one paragraph); a ValueError that leaves the paragraph unchanged is always allowed
+there (a single-line value does not combine with a multi-line one).
 
 Field names whose value is a list of records *in the paragraph's own class* (Files in a Dsc, SHA256
 in a Release, ...) are outside the property (their value is not a string) and are skipped; the same
@@ -53,10 +63,16 @@ RULE = ("a case is (paragraph, key, value); enumerated: every string of 0..4 cha
         "armor line, ...) assigned to the first/middle/last key, to the same key in another letter case "
         "or to a new key of a 1..4-field paragraph with single- and multi-line neighbours (160 fixed "
         "paragraphs over boundary-shaped values, or a freshly generated one). "
+        "The tokens include text that means something to str.format / %-formatting / escapes and nothing "
+        "to the format ('{', '}', '{}', '{0}', '{x}', '${misc:Depends}', '%s', '%(x)s', '%', '$', "
+        "backslash); a third enumeration takes every sequence of 0..3 tokens over 'a', SPACE, LF, ':' and "
+        "eight of those, for the middle key and a new key. "
         "Further dimensions of every generated case and of a second enumeration (every string of 0..3 "
-        "characters over the same 12 characters x 7 assignment routes): the route - d[k]=v, update(dict), "
+        "characters over the same 12 characters x 9 assignment routes): the route - d[k]=v, update(dict), "
         "update(Deb822Dict from a dict / from pairs), update(list of pairs), update(**kw), setdefault for "
-        "a new key; the class of the paragraph - Deb822, Dsc, Changes, Sources, BuildInfo, Release, "
+        "a new key, merge_fields(key, dict / Deb822Dict) for the multi-line middle key, the single-line "
+        "first key, a new key and an existing empty field; the reader of the dump - Deb822.iter_paragraphs, "
+        "the own class's constructor and iter_paragraphs, each in six input forms; the class of the paragraph - Deb822, Dsc, Changes, Sources, BuildInfo, Release, "
         "PdiffIndex, Packages, Removals; and keys that carry records in another class but are ordinary in "
         "this one (Files in a Release, SHA256 in a Dsc, ...: all 0..1-character strings x every such "
         "(class, name) pair, as the middle field and as a new key in another letter case), after ordinary "
@@ -79,6 +95,15 @@ ASSUMPTIONS = [
     "update() is exercised with exactly one item, so that 'rejected leaves the paragraph unchanged' "
     "is what the statement says; setdefault on an existing key and the keyword form with a name that is "
     "not an identifier fall back to d[k]=v / update(dict) (label route:...)",
+    "merge_fields(key, other) is taken as an assignment route: with the field absent from or empty in "
+    "the paragraph the assigned value is other[key]; with a non-empty field the combined value is not "
+    "modelled - the field's value after an accepted call is read from the paragraph (d[key]) and judged "
+    "by the rule and by re-reading the dump, and a ValueError leaving the items unchanged is accepted "
+    "without asking the rule (label merge-with-nonempty-field:...); the three-argument form "
+    "merge_fields(key, d1, d2) assigns nothing and is not exercised",
+    "the constructor of a class reads one paragraph (the first): its result is compared as a "
+    "one-paragraph list, so a dump that splits shows up as lost fields; iter_paragraphs of the own "
+    "class is called with use_apt_pkg=False (the internal parser is the one the statement speaks of)",
     "the warm-up (parse, read, dump, re-assign one two-record document per class; per case the same "
     "for the case's spelling of the key in the classes where it carries records) is not judged; an "
     "exception escaping from it is reported by the engine as EXC:...",
@@ -87,20 +112,33 @@ ASSUMPTIONS = [
 EXHAUSTIVE = {
     "quick": "all strings of 0..4 characters over 12 characters (22 621) assigned to the middle key of "
              "A,K,Z; all strings of 0..3 characters (1 885) x {first key, last key, new key}; "
-             "all strings of 0..3 characters x 7 assignment routes (class and origin cycling); all strings "
-             "of 0..1 characters x every (class, name carrying records in another class) pair",
+             "all strings of 0..3 characters x 9 assignment routes (class and origin cycling; the two "
+             "merge_fields routes x {multi-line key, single-line key, new key, empty field}); all strings "
+             "of 0..1 characters x every (class, name carrying records in another class) pair; all "
+             "sequences of 0..3 tokens over 12 letter/blank/LF/brace/percent/backslash tokens x {middle key, "
+             "new key}",
     "thorough": "all strings of 0..5 characters over 12 characters (271 453) assigned to the middle key of "
                 "A,K,Z; all strings of 0..4 characters (22 621) x {first key, last key, new key}; "
-                "all strings of 0..4 characters x 7 assignment routes (class and origin cycling); all "
-                "strings of 0..1 characters x every (class, name carrying records in another class) pair",
+                "all strings of 0..4 characters x 9 assignment routes (class and origin cycling; the two "
+                "merge_fields routes x {multi-line key, single-line key, new key, empty field}); all "
+                "strings of 0..1 characters x every (class, name carrying records in another class) pair; "
+                "all sequences of 0..4 tokens over 12 letter/blank/LF/brace/percent/backslash tokens x "
+                "{middle key, new key}",
 }
 EXHAUSTIVE_ROUTES = {
-    "quick": "all strings of 0..3 characters over 12 characters (1 885) x 7 routes, + one (class, foreign "
-             "record name) pair each; all strings of 0..1 characters (13) x all such pairs x 2",
-    "thorough": "all strings of 0..4 characters over 12 characters (22 621) x 7 routes, + one (class, foreign "
-                "record name) pair each; all strings of 0..1 characters (13) x all such pairs x 2",
+    "quick": "all strings of 0..3 characters over 12 characters (1 885) x 9 routes (merge_fields routes x 4 "
+             "targets), + one (class, foreign record name) pair each; all strings of 0..1 characters (13) x all such pairs x 2",
+    "thorough": "all strings of 0..4 characters over 12 characters (22 621) x 9 routes (merge_fields routes x 4 "
+                "targets), + one (class, foreign record name) pair each; all strings of 0..1 characters (13) x all such pairs x 2",
 }
-BUDGET = {"quick": 200, "thorough": 1500}
+EXHAUSTIVE_FORMAT = {
+    "quick": "all sequences of 0..3 tokens over 'a', SPACE, LF, ':', '{', '}', '{}', '{0}', "
+             "'${misc:Depends}', '%s', '%(x)s', backslash (1 885) x {middle key, new key}; route, class "
+             "and origin cycling",
+    "thorough": "all sequences of 0..4 tokens over the same 12 tokens (22 621) x {middle key, new key}; "
+                "route, class and origin cycling",
+}
+BUDGET = {"quick": 400, "thorough": 2400}
 
 WSP_OFF = {"whitespace-separates-paragraphs": False}
 
@@ -176,6 +214,22 @@ def _forms(text):
         ("lines+nl", lambda: list(with_nl)),
         ("lines", lambda: list(parts)),
     ]
+
+
+def _readers(cls):
+    """(name, read(source, strict) -> [field names of each paragraph]) for the ways a dump of a
+    ``cls`` paragraph is read back: the generic ``Deb822.iter_paragraphs`` and the paragraph's own
+    class - its constructor (which reads one paragraph: the first) and its ``iter_paragraphs``."""
+    klass = getattr(_lib, cls)
+    out = [("Deb822.iter_paragraphs",
+            lambda src, strict: [list(p.keys()) for p in Deb822.iter_paragraphs(src, strict=strict)]),
+           ("%s(...)" % cls,
+            lambda src, strict: [list(klass(src, strict=strict).keys())])]
+    if cls != "Deb822":
+        out.append(("%s.iter_paragraphs" % cls,
+                    lambda src, strict: [list(p.keys()) for p in
+                                         klass.iter_paragraphs(src, use_apt_pkg=False, strict=strict)]))
+    return out
 
 
 def _classify(got, names):
@@ -280,7 +334,8 @@ def warm_up_key(own_cls, key):
 # the routes by which a value is assigned to a field
 
 ROUTES = ["setitem", "update-dict", "update-Deb822Dict", "update-Deb822Dict-pairs", "update-pairs",
-          "update-kwargs", "setdefault"]
+          "update-kwargs", "setdefault", "merge-dict", "merge-Deb822Dict"]
+MERGE_ROUTES = ("merge-dict", "merge-Deb822Dict")
 
 
 def effective_route(route, key, is_new):
@@ -308,6 +363,11 @@ def assign(d, key, value, route):
         d.update(**{key: value})
     elif route == "setdefault":
         d.setdefault(key, value)
+    elif route == "merge-dict":
+        # merge_fields(key, other): the paragraph takes over / merges in the other mapping's field
+        d.merge_fields(key, {key: value})
+    elif route == "merge-Deb822Dict":
+        d.merge_fields(key, Deb822Dict({key: value}))
     else:
         raise AssertionError(route)
 
@@ -412,9 +472,16 @@ def check(case):
     how = "d[%r] = %r" % (key, value) if route == "setitem" else "%s of %r: %r" % (route, key, value)
     if cls != "Deb822":
         how = "%s paragraph, %s" % (cls, how)
+    # merge_fields on a field the paragraph has: if that field is empty the merge with the other
+    # mapping's value is that value; otherwise the two are combined, and the value the paragraph
+    # ends up with is read from the paragraph itself and judged (no model of the combining)
+    existing = d.get(key) if target != "new-key" else None
+    observed = route in MERGE_ROUTES and isinstance(existing, str) and existing != ""
 
     verdict = rule(value)
     labels = ["target:" + target, "origin:" + str(origin), "class:" + cls, "route:" + route]
+    if observed:
+        labels.append("merge-with-nonempty-field:stored-value-judged")
     if elsewhere:
         labels.append("name-carries-records-in-another-class")
     if "\r" in value:
@@ -427,6 +494,12 @@ def check(case):
         accepted = True
     except ValueError:
         accepted = False
+    except Exception as e:      # "rejected with ValueError": no other exception is a rejection
+        raise Violation("raised-not-ValueError:" + type(e).__name__,
+                        "%s raised %s(%s); the rule says %s" % (
+                            how, type(e).__name__, short(str(e)),
+                            "the merged value decides" if observed else
+                            "accept" if verdict is None else "reject with ValueError (%s)" % verdict))
 
     if not accepted:
         after = [[k, v] for k, v in d.items()]
@@ -434,6 +507,11 @@ def check(case):
             raise Violation("rejected-but-state-changed",
                             "%s raised ValueError but items went from %s to %s"
                             % (how, short(before), short(after)))
+        if observed:
+            # combining two non-empty values may be refused for reasons of its own (a single-line
+            # with a multi-line value) or give an invalid value; either way a rejection is allowed
+            labels.append("rejected:merge-with-nonempty-field")
+            return (True, labels)
         # The statement only says which values MUST be rejected.  That a value is accepted is
         # promised elsewhere (C02) for first line + continuation lines that start with a blank and
         # contain non-blank text; for other values (whitespace-only continuation lines, CR used as
@@ -453,22 +531,32 @@ def check(case):
 
     names = list(d.keys())
     text = d.dump()
+    if observed:
+        stored = d[key]
+        if not isinstance(stored, str):
+            raise Violation("merged-value-not-a-string", "after %s the field holds %s" % (how, short(stored)))
+        how = "%s (field was %r, is now %r)" % (how, existing, stored)
+        value = stored
+        verdict = rule(value)
     blank_cont = has_blank_continuation(value)
     settings = [("wsp-off", WSP_OFF)]
     if not blank_cont:
         settings.append(("default", None))
     bad = None
-    for sname, strict in settings:
-        for fname, make in _forms(text):
-            try:
-                got = [list(p.keys()) for p in Deb822.iter_paragraphs(make(), strict=strict)]
-            except ValueError as e:          # the parser refusing the dump: no paragraph at all
-                got, sig, why = None, "reread-raised", "ValueError(%s)" % e
-            else:
-                sig, why = _classify(got, names)
-            if sig and bad is None:
-                bad = (sig, "dump %s re-read as %s (%s) gives %s: %s; expected one paragraph with %r"
-                       % (short(text), fname, sname, short(got), why, names))
+    forms = _forms(text)
+    for rname, read in _readers(cls):
+        for sname, strict in settings:
+            for fname, make in forms:
+                try:
+                    got = read(make(), None if strict is None else dict(strict))
+                except ValueError as e:          # the parser refusing the dump: no paragraph at all
+                    got, sig, why = None, "reread-raised", "ValueError(%s)" % e
+                else:
+                    sig, why = _classify(got, names)
+                if sig and bad is None:
+                    bad = (sig if rname == "Deb822.iter_paragraphs" else sig + "@own-class-reader",
+                           "dump %s re-read by %s from %s (%s) gives %s: %s; expected one paragraph with %r"
+                           % (short(text), rname, fname, sname, short(got), why, names))
 
     if verdict is not None:
         raise Violation("accepted-invalid:" + verdict,
@@ -496,6 +584,11 @@ def check(case):
 # ------------------------------------------------------------------------------------------
 # generators
 
+# characters and tokens that mean something to the text-formatting machinery of the language the
+# library is written in (str.format, %-formatting, string.Template, escapes) and nothing to the
+# control-file format: substitution variables are everyday content of control files
+FORMAT_TOKENS = ["{", "}", "{}", "{0}", "${misc:Depends}", "%s", "%(x)s", "\\", "{x}", "%", "$", "\\n"]
+
 ENUM_CHARS = ["a", "B", "0", ":", "#", "-", ".", " ", "\t", "\r", "\n", "é"]
 AKZ = [["A", ["1", []]], ["K", ["2", [" 2b"]]], ["Z", ["3", ["\t3b", " 3c: d"]]]]
 
@@ -518,12 +611,37 @@ def enum_cases(maxlen):
     return gen
 
 
+FORMAT_ALPHABET = ["a", " ", "\n", ":"] + FORMAT_TOKENS[:8]
+
+
+def enum_format_cases(maxlen):
+    """Every sequence of 0..maxlen tokens over FORMAT_ALPHABET (a letter, SPACE, LF, ':' and the
+    brace / percent / backslash tokens), assigned to an existing and to a new field; route, class
+    and origin cycle."""
+    def gen():
+        k = 0
+        for n in range(0, maxlen + 1):
+            for seq in itertools.product(FORMAT_ALPHABET, repeat=n):
+                v = "".join(seq)
+                k += 1
+                # 81 consecutive values meet every (route, class) pair; 11 origins are coprime with that
+                yield {"fields": AKZ, "key": "K", "value": v, "origin": ORIGINS[k % len(ORIGINS)],
+                       "cls": CLASSES[(k // len(ROUTES)) % len(CLASSES)], "route": ROUTES[k % len(ROUTES)]}
+                yield {"fields": AKZ, "key": "New", "value": v, "origin": ORIGINS[(k + 5) % len(ORIGINS)],
+                       "cls": CLASSES[(k // len(ROUTES) + 4) % len(CLASSES)],
+                       "route": ROUTES[(k + 3) % len(ROUTES)]}
+    return gen
+
+
 def _othercase(n):
     s = n.swapcase()
     return s if s != n else n          # names without letters have no other spelling
 
 
 FOREIGN_PAIRS = [(c, n) for c in CLASSES for n in foreign_names(c)]
+
+
+AKZ_EMPTY_K = [AKZ[0], ["K", ["", []]], AKZ[2]]
 
 
 def _akz(middle):
@@ -543,6 +661,18 @@ def enum_route_cases(maxlen):
                     yield {"fields": AKZ, "key": "New" if route == "setdefault" else "K", "value": v,
                            "origin": ORIGINS[(k + r) % len(ORIGINS)], "cls": CLASSES[(k + 2 * r) % len(CLASSES)],
                            "route": route}
+                    if route in MERGE_ROUTES:
+                        # merge_fields also for a field the paragraph lacks and for one it has, empty
+                        yield {"fields": AKZ, "key": "New", "value": v,
+                               "origin": ORIGINS[(k + r + 2) % len(ORIGINS)],
+                               "cls": CLASSES[(k + 2 * r + 4) % len(CLASSES)], "route": route}
+                        yield {"fields": AKZ_EMPTY_K, "key": "K" if k % 2 else "k", "value": v,
+                               "origin": ORIGINS[(k + r + 6) % len(ORIGINS)],
+                               "cls": CLASSES[(k + 2 * r + 7) % len(CLASSES)], "route": route}
+                        # ... and for a single-line one ("K" above is multi-line)
+                        yield {"fields": AKZ, "key": "A", "value": v,
+                               "origin": ORIGINS[(k + r + 8) % len(ORIGINS)],
+                               "cls": CLASSES[(k + 2 * r + 1) % len(CLASSES)], "route": route}
                 # ... and one (class, name that carries records in another class) pair, the name
                 # being the middle field or a new one
                 c, name = FOREIGN_PAIRS[(k * 5) % len(FOREIGN_PAIRS)]
@@ -560,6 +690,7 @@ def enum_route_cases(maxlen):
 
 
 TOKENS = (["a", "b", "Z", "0", "9", ":", "#", " ", " ", "\t", "\r", "\n", "\n", ".", "-", "é", "漢"]
+          + FORMAT_TOKENS
           + ["\n ", "\n ", "\n\t", "\n\n", "\r\n", "\r\n ", "\r ", "B: ", "B:", "\nB: ", "\n B: ", "\n#", "\n #",
              "\n.", "\n .", " \n", "\t\n", "\n \n", "\n\t\r", ": ", "\n -----BEGIN PGP SIGNED MESSAGE-----",
              "\n -----BEGIN PGP SIGNATURE-----", "\n -----END PGP SIGNATURE-----", "-----BEGIN PGP SIGNED MESSAGE-----",
@@ -637,7 +768,9 @@ def sources(tier):
     if tier == "quick":
         return [Enum("values<=4chars", enum_cases(4), EXHAUSTIVE["quick"]),
                 Enum("routes-classes<=3chars", enum_route_cases(3), EXHAUSTIVE_ROUTES["quick"]),
+                Enum("format-tokens<=3", enum_format_cases(3), EXHAUSTIVE_FORMAT["quick"]),
                 Hyp("token-values", gen_case(), 1200, shards=8)]
     return [Enum("values<=5chars", enum_cases(5), EXHAUSTIVE["thorough"]),
             Enum("routes-classes<=4chars", enum_route_cases(4), EXHAUSTIVE_ROUTES["thorough"]),
+            Enum("format-tokens<=4", enum_format_cases(4), EXHAUSTIVE_FORMAT["thorough"]),
             Hyp("token-values", gen_case(), 25000, shards=16)]
